@@ -213,7 +213,8 @@ def _trim(h: Distogram) -> Distogram:  # pragma: no cover
 
         v1, f1 = h.bins[i]
         v2, f2 = h.bins.pop(i + 1)
-        h.bins[i] = (v1 * f1 + v2 * f2) / (f1 + f2), f1 + f2
+        # rounding must not carry the merged centre outside the two it replaces
+        h.bins[i] = min(max((v1 * f1 + v2 * f2) / (f1 + f2), v1), v2), f1 + f2
 
         if h.diffs is not None:
             h.diffs.pop(i)
@@ -228,11 +229,12 @@ def _trim_in_place(
 ) -> Distogram:
     current_value, current_frequency = distogram.bins[bin_index]
     current_value = _caster(current_value)
-    distogram.bins[bin_index] = (
-        (current_value * current_frequency + new_value * new_count)
-        / (current_frequency + new_count),
-        current_frequency + new_count,
+    merged_value = (current_value * current_frequency + new_value * new_count) / (
+        current_frequency + new_count
     )
+    # rounding must not carry the merged centre outside the two values it replaces
+    merged_value = min(max(merged_value, min(current_value, new_value)), max(current_value, new_value))
+    distogram.bins[bin_index] = (merged_value, current_frequency + new_count)
     _update_diffs(distogram, bin_index)
     return distogram
 
